@@ -2,6 +2,8 @@
 Driver for C39. Trace lines of one case (harness/cmd/verifharness/c39.go):
 
   cfg stack=<fs|sql|named-fs|named-sql>
+  lossy <0|1>    1: an untouched empty part could not be read back from its store (the SQL part store
+                 before /repo commit 6ff38ea kept no row for empty content)
   obj <i> b=<bucket> k=<hexkey> kind=<single|multi|app> ct=<F|C> rec=<e>:<c32>:<c32c>:<c64>:<s1>:<s256>
           octype=<F|C|~> parts=<store>/<pid>/<oord>/<olen>/<state>/<slen>,…|~
       kind/ct      how the harness created the object (PutObject / CompleteMultipartUpload / AppendObject, copies inherit)
@@ -21,10 +23,16 @@ import Pithos.Util.Proto
 import Pithos.Model.Integrity
 open Pithos Pithos.Proto Pithos.Integrity
 
-/-- THE SWITCH: which variant of the validator `/repo` contains. Flip both to `Cfg.repaired` once
-fixes/C39-*.patch are committed. -/
-def codeDirect : Cfg := Cfg.asIs
-def codeHosted : Cfg := Cfg.asIsHosted
+/-- THE SWITCH: which variant of the validator `/repo` contains.
+`locatesNamedStores`: fixes/C39-resolve-named-part-stores.patch is in;  `dashAware`: fixes/C39-one-part-multipart-etag.patch is in.
+Flip the two defaults below to `true` once the patches are committed. (For self-tests against a
+patched scratch copy the environment variable VERIF_C39_VARIANT=named,dash / named / dash overrides them.) -/
+structure Variant where
+  locatesNamedStores : Bool := false
+  dashAware : Bool := false
+
+def Variant.direct (v : Variant) : Cfg := ⟨if v.locatesNamedStores then .named else .notFound, v.dashAware⟩
+def Variant.hosted (v : Variant) : Cfg := ⟨if v.locatesNamedStores then .named else .single, v.dashAware⟩
 
 def toyH : Hashes :=
   { md5 := id, crc32 := id, crc32c := id, crc64 := id, sha1 := id, sha256 := id,
@@ -124,20 +132,23 @@ def falsePositiveKind (sql : Bool) (o : ObjObs) (r : RepObs) : String :=
     "intact-one-part-dash-etag"
   else if r.outcome == "part" && !r.fails.isEmpty then
     let ps := r.fails.filterMap fun i => o.parts[i]?
-    if ps.length == r.fails.length && ps.all (fun p => p.store.isSome) then "intact-named-store-object"
-    else if ps.length == r.fails.length && sql && ps.all (fun p => p.store.isSome || p.olen == 0) && ps.any (fun p => p.store.isNone) then
-      "intact-empty-part-sql-store"
+    if ps.length ≠ r.fails.length then "intact-object"
+    else if sql && ps.all (fun p => p.olen == 0) then "intact-empty-part-lossy-store"
+    else if ps.all (fun p => p.store.isSome || (sql && p.olen == 0)) then "intact-named-store-object"
     else "intact-object"
   else "intact-object"
 
-def judgeCase (_k : Nat) (lines : List String) : Verdict := Id.run do
+def judgeCase (variant : Variant) (_k : Nat) (lines : List String) : Verdict := Id.run do
+  let codeDirect := variant.direct
+  let codeHosted := variant.hosted
   let stack := match lines.head?.map tokens with
     | some ("cfg" :: rest) => kvOf rest "stack"
     | _ => ""
   if stack == "" then return { diverge := ["unparsable-trace:no-cfg"] }
   if lines.any (fun l => l.startsWith "panic ") then
     return { violations := [("C39.validator-panicked", (lines.find? (fun l => l.startsWith "panic ")).getD "")] }
-  let sql := stack.endsWith "sql"
+  -- `lossy 1`: the harness saw an untouched empty part answered "not found" by its store
+  let sql := lines.any (fun l => tokens l == ["lossy", "1"])
   let objLines := lines.filter (fun l => l.startsWith "obj ")
   let objs := objLines.filterMap parseObj
   if objs.length ≠ objLines.length then return { diverge := ["unparsable-trace:obj"] }
@@ -211,7 +222,7 @@ def judgeCase (_k : Nat) (lines : List String) : Verdict := Id.run do
       | some ["surv", s] => if s == "~" then [] else (s.splitOn ",").map String.toNat!
       | _ => []
     let modelSurv := survivors toyH codeHosted stores rows
-    if modelSurv ≠ surv && modelSurv.mergeSort ≠ surv.mergeSort then
+    if modelSurv.mergeSort != surv.mergeSort then
       div := div ++ [s!"survivors:model={modelSurv},impl={surv}"]
     for o in objs do
       let c := o.parts.any PartObs.corrupted
@@ -237,4 +248,10 @@ def judgeCase (_k : Nat) (lines : List String) : Verdict := Id.run do
     samples := [String.intercalate ";" (lines.filter fun l => l.startsWith "obj " || l.startsWith "rep " || l.startsWith "cfg ")]
   }
 
-def main : IO Unit := runDriver judgeCase
+def main : IO Unit := do
+  let dflt : Variant := {}
+  let v ← IO.getEnv "VERIF_C39_VARIANT"
+  let variant : Variant := match v with
+    | some s => { locatesNamedStores := (s.splitOn ",").contains "named", dashAware := (s.splitOn ",").contains "dash" }
+    | none => dflt
+  runDriver (judgeCase variant)
